@@ -80,6 +80,30 @@ def check(prog, ctx):
              'iteration stops on a relative step |t| < EPS*x with EPS <= 1e-7', 2)
     ctx.rule('C06.i', 'quadrature branch (a>100): the integrand t^(a-1)e^-t/Gamma(a) is only evaluated at t >= 0 - both integration limits handed '
              'to Find_Epsilon/Integrate are provably non-negative (lower limit max(0, .) or 0; upper limit x >= 0 by GammaQ\'s guard)', 1)
+    ctx.rule('C06.j', 'the gamma family is stateless: in the closure of GammaP/GammaQ/Inv_GammaP/Gamma/GammaLn no persistent local can be read '
+             'before the current call assigned it, except the append-only factorial table (C06.c) or an exact cache keyed on every argument', 6)
+    from ..state import history_dependence
+    roots = [f_ for f_ in prog.repo_functions() if f_.name in ('GammaQ', 'GammaP', 'Inv_GammaP', 'Inv_GammaQ', 'Gamma', 'GammaLn',
+                                                                'Upper_Incomplete_Gamma', 'Lower_Incomplete_Gamma')]
+    seen_, todo_ = {}, list(roots)
+    while todo_:
+        f_ = todo_.pop()
+        if f_.sig in seen_ or f_.body is None:
+            continue
+        seen_[f_.sig] = f_
+        for c_ in calls(f_):
+            cc_ = c_.get('callee') or {}
+            if cc_.get('inrepo'):
+                g_ = prog.by_sig(cc_.get('sig'))
+                if g_ is not None and g_.file.endswith('Special_Functions.cpp'):
+                    todo_.append(g_)
+    for f_ in sorted(seen_.values(), key=lambda x: (x.file, x.line)):
+        if f_.name == 'Factorial':
+            continue                    # its table is decided by the memo rule C06.c
+        hv = history_dependence(prog, f_)
+        badh = [d_ for n_, v_, d_ in hv if v_ == 'violated']
+        ctx.decide('C06.j', '%s/%d:stateless' % (f_.name, len(f_.params)), f_, not badh, 'no history-carrying local state (%d persistent locals)' % len(hv),
+                   '; '.join(badh), witness={'reproducer': 'two consecutive calls with a differing by less than 1e-10 relative: the second uses the first one\'s ln Gamma'} if badh else None)
     gq = prog.fn(L + 'GammaQ')
     # ---- C06.b branch selection
     sx = Symx(prog, gq)
@@ -164,12 +188,12 @@ def check(prog, ctx):
     xg = s2.symbol(fn.params[0]['name'], 'double')
     ctx.decide('C06.f', 'Gamma', fn, is_zero(v - sp.exp(FN('GammaLn')(xg))), 'Gamma = exp(GammaLn(x))', 'Gamma returns %s' % v, form=str(v))
 
-    continued_fraction(prog, ctx, cf)
-    series(prog, ctx, ser, cf)
-    halley(prog, ctx)
-    quadrature_window(prog, ctx, gq)
-    memo(prog, ctx)
-    lanczos(prog, ctx)
+    ctx.sub('continued_fraction', continued_fraction, prog, ctx, cf)
+    ctx.sub('series', series, prog, ctx, ser, cf)
+    ctx.sub('halley', halley, prog, ctx)
+    ctx.sub('quadrature_window', quadrature_window, prog, ctx, gq)
+    ctx.sub('memo', memo, prog, ctx)
+    ctx.sub('lanczos', lanczos, prog, ctx)
 
 
 def continued_fraction(prog, ctx, cf):
